@@ -20,6 +20,10 @@
 //! to the exact call.  Hang rule (two stages): a call burning > 20 CPU-s is abandoned and the case is
 //! re-run ALONE with a 120 CPU-s limit; only the second expiry is reported.
 //! Signature: C22/<entry point>/<statement kind | fn:NAME | api op>/<panic:file.rs:line | abort:kind | hang>.
+//! A worker that burns CPU while holding > 1 GiB when it reaches a CPU limit is a memory blow-up (abort:alloc_abort), not a hang;
+//! a worker whose threads all sleep (states from /proc) for 8 s, then 30 s alone, is blocked on a lock (hang).
+//! The per-case database copies live in /dev/shm/tv-c22-<pid>/ (memory backed; ~16 fsync/msync per case cost 400 ms on the
+//! shared disk), everything else in /verif/scratch/c22-<pid>/; both are removed at the end (TV_C22_NO_SHM=1: all on disk).
 //! Cases are a pure function of (seed, unit, index): `tv C22 --tier T --seed S child <unit> <idx> 1 <dir>`
 //! replays one; `tv C22 --replay <file>` re-runs the minimal case stored in a replay file.
 #![allow(unused_variables, unused_mut, unused_assignments)]
@@ -4611,8 +4615,9 @@ struct OneRunner {
 }
 
 impl OneRunner {
+    /// a new investigation run may take ~10-20 s: none is started in the last 12 s
     fn out_of_time(&self) -> bool {
-        std::time::Instant::now() > self.stop_at
+        std::time::Instant::now() + std::time::Duration::from_secs(12) > self.stop_at
     }
     fn run(&self, case: &Case, cpu_limit_s: f64, blocked_limit_s: f64) -> OneResult {
         use std::process::{Command, Stdio};
@@ -4662,6 +4667,12 @@ impl OneRunner {
                     }
                 }
                 Ok(None) => {
+                    if std::time::Instant::now() > self.stop_at {
+                        // wall budget of the tier used up: abandon the investigation run (no verdict from it)
+                        let _ = child.kill();
+                        let _ = child.wait();
+                        break OneResult::Spawn("abandoned: wall budget of the tier used up".into());
+                    }
                     let bb = read_blackbox(&dir.join("bb"));
                     match watch.poll(child.id(), &bb, cpu_limit_s, blocked_limit_s) {
                         Verdict::Fine => {}
@@ -4899,7 +4910,7 @@ enum Task {
     /// a child died while running this case at this label
     Death { case: Case, class: String, label: String, stderr: Vec<String>, prov_key: String },
     /// a call burned SOFT_CPU_S: run the case alone with the hard limit
-    Hang { case: Case, label: String, prov_key: String },
+    Hang { case: Case, label: String, prov_key: String, blocked: bool },
 }
 
 #[derive(Default)]
@@ -5044,14 +5055,14 @@ struct UnitPlan {
 }
 
 const PLAN: &[UnitPlan] = &[
-    UnitPlan { name: "gram", quick: 2600, thorough: 36_000, chunk_quick: 130, chunk_thorough: 600 },
-    UnitPlan { name: "func", quick: 1330, thorough: 13_300, chunk_quick: 95, chunk_thorough: 475 },
+    UnitPlan { name: "gram", quick: 2600, thorough: 20_000, chunk_quick: 130, chunk_thorough: 500 },
+    UnitPlan { name: "func", quick: 1330, thorough: 7_600, chunk_quick: 95, chunk_thorough: 380 },
     UnitPlan { name: "deep", quick: 230, thorough: 1380, chunk_quick: 46, chunk_thorough: 138 },
     UnitPlan { name: "huge", quick: 240, thorough: 1800, chunk_quick: 60, chunk_thorough: 180 },
-    UnitPlan { name: "mut", quick: 1700, thorough: 26_000, chunk_quick: 100, chunk_thorough: 500 },
-    UnitPlan { name: "bytes", quick: 900, thorough: 12_000, chunk_quick: 100, chunk_thorough: 500 },
-    UnitPlan { name: "params", quick: 1000, thorough: 14_000, chunk_quick: 100, chunk_thorough: 500 },
-    UnitPlan { name: "api", quick: 500, thorough: 7_000, chunk_quick: 50, chunk_thorough: 250 },
+    UnitPlan { name: "mut", quick: 1700, thorough: 14_000, chunk_quick: 100, chunk_thorough: 500 },
+    UnitPlan { name: "bytes", quick: 900, thorough: 6_000, chunk_quick: 100, chunk_thorough: 500 },
+    UnitPlan { name: "params", quick: 1000, thorough: 8_000, chunk_quick: 100, chunk_thorough: 500 },
+    UnitPlan { name: "api", quick: 500, thorough: 4_000, chunk_quick: 50, chunk_thorough: 250 },
 ];
 
 struct Job {
@@ -5189,7 +5200,7 @@ fn parent_main(a: &Args) -> i32 {
 
     // investigation workers
     // wall budget of the whole run: quick <= 90 s, thorough <= 12 min
-    let stop_at = t0 + Duration::from_secs(if quick { 80 } else { 690 });
+    let stop_at = t0 + Duration::from_secs(if quick { 84 } else { 700 });
     let runner = Arc::new(OneRunner { exe: exe.clone(), root: root.clone(), tier: a.tier.clone(), seed: a.seed, counter: AtomicU64::new(0), stop_at });
     let results = Arc::new(Mutex::new(TaskResults::default()));
     let (tx, rx) = mpsc::channel::<Task>();
@@ -5204,7 +5215,16 @@ fn parent_main(a: &Args) -> i32 {
             };
             match t {
                 Task::Death { case, class, label, stderr, prov_key } => investigate_death(&runner, case, class, label, stderr, prov_key, &results, &tier, seed, false),
-                Task::Hang { case, label, prov_key } => investigate_hang(&runner, case, label, prov_key, &results, &tier, seed),
+                Task::Hang { case, label, prov_key, blocked } => {
+                    // the fit is checked again when the investigation really starts (it may have waited in the queue)
+                    let needed = Duration::from_secs(if blocked { 34 } else { 135 });
+                    if Instant::now() + needed > runner.stop_at {
+                        bump(&results, if blocked { "soft_deadline_blocked_cases_not_rerun_no_time_left" } else { "soft_deadline_busy_cases_not_rerun_no_time_left" });
+                        results.lock().unwrap().notes.push(json!({"hang_suspect_first_stage_only": {"unit": case.unit, "idx": case.idx, "at": label, "blocked": blocked}}));
+                    } else {
+                        investigate_hang(&runner, case, label, prov_key, &results, &tier, seed)
+                    }
+                }
             }
         }));
     }
@@ -5325,7 +5345,7 @@ fn parent_main(a: &Args) -> i32 {
                                     }
                                 } else if *n <= 2 && hang_tasks < 8 {
                                     hang_tasks += 1;
-                                    let _ = tx.send(Task::Hang { case, label: label.clone(), prov_key });
+                                    let _ = tx.send(Task::Hang { case, label: label.clone(), prov_key, blocked: was_blocked });
                                 } else {
                                     ctx.count("soft_deadline_cases_not_rerun_cap", 1);
                                 }
